@@ -109,8 +109,8 @@ KERNEL_RULE = ("kernel scripts from gen/kgen.py (profiles %s; one SplitMix64 sta
 def kernel_property(ctx, pid, prop_v, profiles, relevant_ops, count_quick=60, count_thorough=1500, assumptions=()):
     fw.regen_leaves(ctx, ["handles"])
     fw.coq_prove(ctx, prop_v)
-    ke.standard_kernel_check(ctx, pid, profiles, relevant_ops, pid, count_quick=count_quick, count_thorough=count_thorough,
-                             extra_files=replay_scripts(ctx))
+    ctx.kernel_run = ke.standard_kernel_check(ctx, pid, profiles, relevant_ops, pid, count_quick=count_quick, count_thorough=count_thorough,
+                                              extra_files=replay_scripts(ctx))
     ctx.cov["rule"] = KERNEL_RULE % ("/".join(profiles), pid, ", ".join(sorted(relevant_ops)))
     ctx.cov["samples"] += [{"theorem": t} for t in fw.theorem_statements(prop_v, 4)]
     ctx.assumptions += list(assumptions)
@@ -120,3 +120,21 @@ def check_C11(ctx):
                     assumptions=["the add_edge search through the outgoing-halfedge cache is proved under exactness of that cache at the vertex "
                                  "(C01's invariant); 'valid arguments' = live handles",
                                  "tetrahedral / hexahedral valence guards are covered under C15 / C16"])
+
+def check_C03(ctx):
+    kernel_property(ctx, "C03", "Props/Properties_C03.v", ["valid", "swaps", "setops"],
+                    {"DelV", "DelE", "DelF", "DelC", "SwapV", "SwapE", "SwapF", "SwapC", "GC", "Clear", "AddV", "AddVs", "AddE", "AddFV", "AddC", "EnDef"},
+                    assumptions=["proved for every reachable state: one element per slot; proved per notification and per swap: the slot permutation; "
+                                 "that each delete_*_core applies exactly (optional swap-with-last, then delete-element) to the properties is tied by the "
+                                 "lock step on every property array and checked by the token oracle, not yet stated as a theorem",
+                                 "the oracle identifies vertices by their position (a harness-side identity token), i.e. it relies on vertex positions following C03 themselves"])
+
+def check_C17(ctx):
+    kernel_property(ctx, "C17", "Props/Properties_C17.v", ["swaps", "valid"], {"SwapV", "SwapE", "SwapF", "SwapC"},
+                    assumptions=["full relabeling and involution are proved for the linear-scan implementation (consulted incidence kinds off) in every reachable state; "
+                                 "with incidences on, the exchange of slots/flags/properties is proved in every mode, the relabeling of referring definitions is tied by lock step + oracle; "
+                                 "the relabeling of definitions of deferred-DELETED entities is refuted (C17_relabel_of_deleted_definitions_refuted, KNOWN_FINDINGS D13)"])
+    # known finding D13: reported (not counted) when its replay still shows the recorded signature
+    kf = [f for f in fw.known_findings("C17") if f.get("id") == "D13"]
+    if kf and any(of["oracle"] == "C17-deleted-def" and of["script"].startswith("D13") for of in ctx.kernel_run.oracle_fails):
+        ctx.known.append("swap_face_indices leaves the stored definition of a deferred-deleted cell unrelabeled (D13; replay corpus/kernel/known-findings.scripts)")
